@@ -66,6 +66,38 @@ def has_cmp(tests, want_text, env=None, polarity=True):
   return False
 
 
+def state_in_force_is_latest(ctx, rule):
+  """Location-independent: the state carried into the first piece (tempo, time signature, key, chord) is the one *in force* at
+  the first split time: the latest event at or before it.  Taking it with next(<events in ascending time order> if time <= t)
+  yields the earliest such event; the search must run from the end (reversed / descending) or overwrite while walking forward."""
+  fi = ctx.func(SL + ':_extract_subsequences')
+  fn = fi.node
+  n = 0
+  for c in U.calls_in(fn):
+    if not (dotted(c.func) == 'next' and c.args and isinstance(c.args[0], ast.GeneratorExp)):
+      continue
+    g = c.args[0].generators[0]
+    if not any(isinstance(x, ast.Compare) and isinstance(x.ops[0], (ast.LtE, ast.Lt, ast.GtE, ast.Gt)) and any(isinstance(y, ast.Attribute) and y.attr == 'time' for y in ast.walk(x)) for f in g.ifs for x in ast.walk(f)):
+      continue
+    n += 1
+    src = U.expand_locals(fn, g.iter, at=c)
+    desc = (isinstance(src, ast.Call) and dotted(src.func) == 'reversed') or \
+        (isinstance(src, ast.Call) and dotted(src.func) == 'sorted' and any(k.arg == 'reverse' and isinstance(k.value, ast.Constant) and k.value.value is True for k in src.keywords)) or \
+        (isinstance(src, ast.Subscript) and isinstance(src.slice, ast.Slice) and U.const_value(src.slice.step) == -1)
+    asc = isinstance(src, ast.Call) and dotted(src.func) == 'sorted' and not desc
+    cons = 'the state carried into the first piece is the latest event at or before the first split'
+    if desc:
+      ctx.ob(rule, fi, c, True, 'the search runs from the latest event backwards', construct=cons)
+    elif asc:
+      ctx.ob(rule, fi, c, False, '%s takes the first match in ascending time order, i.e. the *earliest* event at or before the first split time: with two tempo (time / key signature, chord) '
+             'events before the window the older one is carried in although the later one is in force' % norm_text(c)[:70], construct=cons, definite=True)
+    else:
+      why = 'cannot classify: the order of %s is not known' % norm_text(g.iter)[:50]
+      ctx.ob(rule, fi, c, False, why, construct=cons, unknown=why)
+  if n == 0:
+    ctx.ob(rule, fi, fn, True, 'the carried state is not taken with a first-match search', construct='the state carried into the first piece is the latest event at or before the first split')
+
+
 def touching_is_not_crossing(ctx, rule):
   """Location-independent, comparison by comparison: with skip_splits_inside_notes a split point is dropped only if a note is
   *sustained across* it: starts before and ends after.  A note that ends exactly at the point, or starts exactly there, is not
@@ -116,6 +148,7 @@ def touching_is_not_crossing(ctx, rule):
 
 def run(ctx):
   touching_is_not_crossing(ctx, 'SPLIT/touching-is-not-crossing')
+  state_in_force_is_latest(ctx, 'STATE/in-force-is-latest')
   for name in ('trim_note_sequence', '_extract_subsequences', 'extract_subsequence', 'split_note_sequence',
                'split_note_sequence_on_time_changes', 'split_note_sequence_on_silence'):
     ptypes, consts, borrowed, _r = own.RETURNS_NEW[name]
